@@ -51,9 +51,10 @@ def run(tier):
         c.traces_validated += ntr
         c.samples.append({"kind": "recorded trace prefix accepted by RingTrace.tla", "events": lines[:8]})
     else:
-        ctx = lines[max(0, at - 6):at]
+        start = max(i for i in range(at) if '"op":"New"' in lines[i])
+        ctx = lines[start:at]
         c.report_failure("ring: recorded call/reply not allowed by RingBuffer.tla: " + summarize(ctx[-1] if ctx else ""),
-                         {"rejected_at_line": at, "context": ctx})
+                         {"rejected_at_line": at, "history": ctx, "trace": {"comp": "ring", "module": "RingTrace"}})
     if not c.quick():
         selftest(c, lines)
     return c.finish(rule="one behaviour per edge of the RingImpl state graph (shortest call sequence to the edge's source "
